@@ -141,6 +141,7 @@ J ExecOp::to_json() const {
     if (argv_null) j.set("argv", J()); else j.set("argv", jstrs(argv));
     if (envp_null) j.set("envp", J()); else j.set("envp", jstrs(envp));
     if (argv0_null_hidden) j.set("argv0_null_hidden", true);
+    if (entry_errno) j.set("entry_errno", entry_errno);
     J o = J::obj();
     if (success) o.set("success", true); else { o.set("ret", ret); o.set("errno", err); }
     j.set("outcome", o);
@@ -153,7 +154,7 @@ ExecOp ExecOp::from_json(const J &j) {
     e.api = j.gets("api", "execve") == "execv" ? 0 : 1; e.path = j.gets("path");
     const J *a = j.find("argv"); if (!a || a->is_null()) e.argv_null = true; else e.argv = jstrs(*a);
     const J *v = j.find("envp"); if (!v || v->is_null()) e.envp_null = true; else e.envp = jstrs(*v);
-    e.argv0_null_hidden = j.getb("argv0_null_hidden");
+    e.argv0_null_hidden = j.getb("argv0_null_hidden"); e.entry_errno = (int)j.geti("entry_errno", 0);
     const J &o = j.at("outcome");
     e.success = o.getb("success"); e.ret = (int)o.geti("ret", -1); e.err = (int)o.geti("errno", 2);
     for (auto &f : j.at("faults").a) e.faults.push_back(Fault::from_json(f));
